@@ -28,65 +28,7 @@ def words_le(b):
     return [int.from_bytes(b[i : i + 4], "little") for i in range(0, len(b), 4)]
 
 
-def fold(e):
-    """Literal folding of integer constants and removal of overflow-check wrappers."""
-    if not isinstance(e, tuple):
-        return e
-    if e[0] == "chk":
-        return fold(e[1])
-    if e[0] == "bin":
-        a, b = fold(e[2]), fold(e[3])
-        op = e[1]
-        if is_const(a) and is_const(b) and isinstance(a[1], int) and isinstance(b[1], int):
-            if op in ("Add", "WAdd"):
-                return K(a[1] + b[1], a[2])
-            if op in ("Sub",):
-                return K(a[1] - b[1], a[2])
-            if op in ("Mul",):
-                return K(a[1] * b[1], a[2])
-            if op == "Shr":
-                return K(a[1] >> b[1], a[2])
-            if op == "Shl":
-                return K(a[1] << b[1], a[2])
-        from ..sym import norm_bin
-
-        r = norm_bin(op, a, b)
-        return r
-    if e[0] == "cast":
-        inner = fold(e[2])
-        if is_const(inner):
-            return K(inner[1], e[1])
-        return ("cast", e[1], inner)
-    return tuple(fold(x) if isinstance(x, tuple) else x for x in e)
-
-
-def nocast(e):
-    """Remove integer casts everywhere (widths are not what is compared here)."""
-    if not isinstance(e, tuple):
-        return e
-    if e[0] == "cast":
-        return nocast(e[2])
-    if e[0] == "k":
-        return ("k", e[1], "int")
-    if e[0] in ("p", "u", "h"):
-        return ("v", e[1])
-    return tuple(nocast(x) if isinstance(x, tuple) else x for x in e)
-
-
-def N(e):
-    from ..sym import norm_bin
-
-    e = nocast(fold(e))
-
-    def re(x):
-        if not isinstance(x, tuple):
-            return x
-        x = tuple(re(y) if isinstance(y, tuple) else y for y in x)
-        if x[0] == "bin":
-            return norm_bin(x[1], x[2], x[3])
-        return x
-
-    return re(e)
+from ..sym import N, fold, nocast  # noqa: E402,F401
 
 
 def self_field(e, field):
